@@ -23,3 +23,5 @@ set +e
 for t in quick; do ./check $P --tier $t > /tmp/seed/$ID.check.log 2>&1; echo "check $P $t exit=$?"; grep -E "VIOLATION|KNOWN" /tmp/seed/$ID.check.log; done
 git -C /repo checkout -- .
 git -C /repo status --short
+# refresh the evidence on the clean tree (the run above wrote evidence of the seeded tree)
+./check $P --tier quick > /tmp/seed/$ID.clean.log 2>&1; echo "clean re-run exit=$?"
